@@ -369,6 +369,9 @@ func runSeq(p *DPlan, system string, keepLog bool, prefix string) seqResult {
 					}
 					for i := range p.Faults {
 						if f := &p.Faults[i]; f.At >= sysBefore && f.At < k.Syscalls() {
+							if f.Kind == "short" && op.Kind == "barrier" {
+								continue // a short-transfer fault cannot apply to fsync
+							}
 							return f
 						}
 					}
